@@ -215,6 +215,10 @@ func (unpacker *RtpUnpackerAvcHevc) TryUnpackOne(list *RtpPacketList) (unpackedF
 
 func calcPositionIfNeededAvc(pkt *RtpPacket) {
 	b := pkt.Body()
+	if len(b) < 1 {
+		Log.Errorf("rtp payload empty. header=%+v, len=%d", pkt.Header, len(pkt.Raw))
+		return
+	}
 
 	// rfc3984 5.3.  NAL Unit Octet Usage
 	//
@@ -258,6 +262,10 @@ func calcPositionIfNeededAvc(pkt *RtpPacket) {
 		// |S|E|R|  Type   |
 		// +---------------+
 
+		if len(b) < 2 {
+			Log.Errorf("fu-a payload too short. header=%+v, len=%d", pkt.Header, len(pkt.Raw))
+			return
+		}
 		fuIndicator := b[0]
 		_ = fuIndicator
 		fuHeader := b[1]
@@ -289,6 +297,10 @@ func calcPositionIfNeededAvc(pkt *RtpPacket) {
 
 func calcPositionIfNeededHevc(pkt *RtpPacket) {
 	b := pkt.Body()
+	if len(b) < 1 {
+		Log.Errorf("rtp payload empty. header=%+v, len=%d", pkt.Header, len(pkt.Raw))
+		return
+	}
 
 	// +---------------+---------------+
 	// |0|1|2|3|4|5|6|7|0|1|2|3|4|5|6|7|
@@ -330,6 +342,10 @@ func calcPositionIfNeededHevc(pkt *RtpPacket) {
 
 		// Figure 10: The Structure of FU Header
 
+		if len(b) < 3 {
+			Log.Errorf("fu payload too short. header=%+v, len=%d", pkt.Header, len(pkt.Raw))
+			return
+		}
 		startCode := (b[2] & 0x80) != 0
 		endCode := (b[2] & 0x40) != 0
 
@@ -346,6 +362,10 @@ func calcPositionIfNeededHevc(pkt *RtpPacket) {
 		pkt.positionType = PositionTypeFuaMiddle
 		return
 	} else if outerNaluType == NaluTypeHevcAp {
+		if len(b) < 2 {
+			Log.Errorf("ap payload too short. header=%+v, len=%d", pkt.Header, len(pkt.Raw))
+			return
+		}
 		pkt.positionType = PositionTypeAp
 		return
 	}
